@@ -7,9 +7,16 @@
 //!   asis <ev>*   same execution; the Lean driver compares with the model of the UNPATCHED code
 //!                (only generated with VERIF_C17_ASIS=1, to re-establish DESIGN §5.8 on the old tree)
 //!   creq <ev>*   request wrapping: what the inner service receives for a gRPC request body
+//!   st <u|s> <ev>*   tonic's real `client::Grpc` (unary / server-streaming, raw byte codec) over
+//!                `GrpcWebClientService`; the inner service answers 200, no headers, body = events.
+//!                Observed: what the CALLER gets —
+//!                u: `ok <message> <metadata map>` | `err <status>`
+//!                s: `msgs <n> <message>* end ok <trailers map|none>` | `msgs <n> <message>* end err <status>`
+//!                status = `<code> <message> <details> <metadata map>` (c04 form); a status made by
+//!                the layer itself (tonic-web's own INTERNAL texts) is printed as `layer`
 //! events as in c16. Observed frames: `d <hex>` | `t <n> (name value)*` (sorted by name, value
 //! order kept) | final `eos` / `err` / `busy`; then `ae <n>` = polls of the inner body after its end.
-use crate::c16::{all_chunkings, block_on, chunkings, frame, frames_bytes, gen_frames, gen_trailers, header_map, parse_evs, prefix_marks, render_evs, with_pendings, Ev, ScriptBody};
+use crate::c16::{all_chunkings, big_payload, big_trailers, block_on, chunkings, frame, frames_bytes, gen_frames, gen_trailers, gen_trailers_valid, header_map, parse_evs, prefix_marks, render_evs, with_pendings, Ev, ScriptBody, BIG_SIZES};
 use crate::common::*;
 use bytes::Bytes;
 use http::{HeaderMap, Request, Response, Version};
@@ -145,7 +152,110 @@ pub fn execute(case: &str) -> String {
             let (_, seen, _, _) = run_client(vec![], evs);
             seen.join(" ")
         }
+        ["st", kind @ ("u" | "s"), evs @ ..] => {
+            let Some(evs) = parse_evs(evs) else { return "bad-case".into() };
+            run_status(kind, evs)
+        }
         _ => "bad-case".into(),
+    }
+}
+
+/// texts of the statuses `GrpcWebCall` makes itself (call.rs); they all are INTERNAL
+const LAYER_TEXTS: [&str; 4] = ["tonic-web: ", "trailers ", "Unable to parse Header", "Invalid header bit "];
+
+fn render_caller_status(st: &tonic::Status) -> String {
+    if st.code() == tonic::Code::Internal && LAYER_TEXTS.iter().any(|p| st.message().starts_with(p)) {
+        "layer".into()
+    } else {
+        crate::c04::render_status(st)
+    }
+}
+
+/// bytes in, bytes out
+#[derive(Clone, Default)]
+struct RawCodec;
+struct RawEnc;
+struct RawDec;
+impl tonic::codec::Encoder for RawEnc {
+    type Item = Vec<u8>;
+    type Error = tonic::Status;
+    fn encode(&mut self, item: Vec<u8>, dst: &mut tonic::codec::EncodeBuf<'_>) -> Result<(), tonic::Status> {
+        use bytes::BufMut;
+        dst.put_slice(&item);
+        Ok(())
+    }
+}
+impl tonic::codec::Decoder for RawDec {
+    type Item = Vec<u8>;
+    type Error = tonic::Status;
+    fn decode(&mut self, src: &mut tonic::codec::DecodeBuf<'_>) -> Result<Option<Vec<u8>>, tonic::Status> {
+        use bytes::Buf;
+        let n = src.remaining();
+        Ok(Some(src.copy_to_bytes(n).to_vec()))
+    }
+}
+impl tonic::codec::Codec for RawCodec {
+    type Encode = Vec<u8>;
+    type Decode = Vec<u8>;
+    type Encoder = RawEnc;
+    type Decoder = RawDec;
+    fn encoder(&mut self) -> RawEnc {
+        RawEnc
+    }
+    fn decoder(&mut self) -> RawDec {
+        RawDec
+    }
+}
+
+/// The caller's view: `tonic::client::Grpc` over the client layer over a scripted HTTP service.
+fn run_status(kind: &str, resp_evs: Vec<Ev>) -> String {
+    let body = ScriptBody::new(resp_evs);
+    let seen = Arc::new(Mutex::new(Vec::new()));
+    let inner = InnerHttp { resp: Some(body), seen };
+    let svc = tonic_web::GrpcWebClientService::new(inner);
+    let mut grpc = tonic::client::Grpc::with_origin(svc, http::Uri::from_static("http://verif.test"));
+    let path = http::uri::PathAndQuery::from_static("/verif.Svc/Call");
+    let unary = kind == "u";
+    let r = catch_unwind(AssertUnwindSafe(move || {
+        block_on(async move {
+            let _ = grpc.ready().await;
+            if unary {
+                match grpc.unary(tonic::Request::new(vec![1u8, 2, 3]), path, RawCodec).await {
+                    Ok(resp) => format!("ok {} {}", hex(resp.get_ref()), crate::c04::render_map(&resp.metadata().clone().into_headers())),
+                    Err(st) => format!("err {}", render_caller_status(&st)),
+                }
+            } else {
+                match grpc.server_streaming(tonic::Request::new(vec![1u8, 2, 3]), path, RawCodec).await {
+                    Err(st) => format!("msgs 0 end err {}", render_caller_status(&st)),
+                    Ok(resp) => {
+                        let mut s = resp.into_inner();
+                        let mut msgs: Vec<String> = Vec::new();
+                        loop {
+                            match s.message().await {
+                                Ok(Some(m)) => msgs.push(hex(&m)),
+                                Ok(None) => {
+                                    let tr = match s.trailers().await {
+                                        Ok(Some(t)) => crate::c04::render_map(&t.into_headers()),
+                                        Ok(None) => "none".into(),
+                                        Err(st) => format!("trailers-err {}", render_caller_status(&st)),
+                                    };
+                                    break format!("msgs {} {} end ok {}", msgs.len(), msgs.join(" "), tr);
+                                }
+                                Err(st) => break format!("msgs {} {} end err {}", msgs.len(), msgs.join(" "), render_caller_status(&st)),
+                            }
+                            if msgs.len() > 10_000 {
+                                break "runaway".into();
+                            }
+                        }
+                    }
+                }
+            }
+        })
+    }));
+    match r {
+        Ok(Some(s)) => s.split(' ').filter(|t| !t.is_empty()).collect::<Vec<_>>().join(" "),
+        Ok(None) => "hang".into(),
+        Err(_) => "panic".into(),
     }
 }
 
@@ -164,6 +274,39 @@ fn block_of(tr: &[(Vec<u8>, Vec<u8>)], sep: &[u8]) -> Vec<u8> {
         b.extend_from_slice(b"\r\n");
     }
     b
+}
+
+/// trailers a gRPC server ends a call with: a status (codes 0..16, unknown and malformed ones),
+/// optionally a message (with ':', percent-escapes — valid, truncated, giving invalid UTF-8),
+/// optionally details (base64, padded / unpadded / invalid), custom metadata with repeated names
+fn gen_status_trailers(rng: &mut Rng) -> Vec<(Vec<u8>, Vec<u8>)> {
+    const CODES: [&[u8]; 12] = [b"0", b"0", b"1", b"2", b"5", b"13", b"14", b"16", b"17", b"99", b"", b"013"];
+    const MSGS: [&[u8]; 12] = [b"plain", b"a:b", b"not%20found: a%3Ab", b"100%", b"%zz", b"caf%C3%A9", b"%ff%fe", b"with space", b"", b"x:y:z:", b"%E2%98%83 snow", b"tail%2"];
+    const DETS: [&[u8]; 6] = [b"AQID", b"AQI=", b"AQ", b"!!!!", b"", b"CgVoZWxsbw"];
+    let mut tr: Vec<(Vec<u8>, Vec<u8>)> = Vec::new();
+    if rng.chance(9, 10) {
+        tr.push((b"grpc-status".to_vec(), rng.pick(&CODES).to_vec()));
+    }
+    if rng.chance(1, 2) {
+        tr.push((b"grpc-message".to_vec(), rng.pick(&MSGS).to_vec()));
+    }
+    if rng.chance(1, 3) {
+        tr.push((b"grpc-status-details-bin".to_vec(), rng.pick(&DETS).to_vec()));
+    }
+    for _ in 0..rng.below(4) {
+        let k = *rng.pick(&["x-a", "x-a", "x-b", "x-trace-bin", "content-type", "grpc-encoding"]);
+        let v: &[u8] = *rng.pick(&[&b"1"[..], b"2", b"AAEC", b"a:b", b"v w", b""]);
+        tr.push((k.as_bytes().to_vec(), v.to_vec()));
+    }
+    if rng.chance(1, 12) {
+        tr.push((b"grpc-status".to_vec(), b"7".to_vec())); // a second status value: the first one counts
+    }
+    // any order
+    for i in (1..tr.len()).rev() {
+        let j = rng.below(i as u64 + 1) as usize;
+        tr.swap(i, j);
+    }
+    tr
 }
 
 fn case_of(kind: &str, evs: &[Ev]) -> String {
@@ -217,6 +360,97 @@ pub fn generate(tier: &str, rng: &mut Rng) -> Vec<String> {
     out.push(case_of(kind, &[Ev::Data(vec![7, 0, 0, 0, 0])])); // bad flag
     out.push(case_of(kind, &[Ev::Data(vec![0x81, 0, 0, 0, 0])]));
     out.push(case_of(kind, &[Ev::Data(msg.clone()), Ev::Err]));
+    // malformed trailer blocks: a last line without CRLF (witness of `C17_unterminated_line_fails`:
+    // before fix-C17-5 the status line was dropped and the stream ended cleanly), a bare CR inside
+    // a value that starts with a space (the rest of the line used to be dropped), lone CRs
+    for blk in [
+        &b"grpc-status:13"[..],
+        b"x:1\r\ngrpc-status:13",
+        b"x:1\r\ngrpc-status: 13",
+        b"x: v\rgrpc-status:13\r\n",
+        b"grpc-status:0\r\nx: v\rgrpc-status:13\r\n",
+        b"grpc-status:0\r\nx: v\rw\r\n",
+        b"x:1\r\n\r",
+        b"x:1\r\ngrpc-status:13\r",
+        b"x:1\r\ngrpc-status:13\n",
+        b"\r\n",
+        b"x:1\r\n\r\n",
+        b"grpc-status:13\n",
+        b":v\r\n",
+        b"x:1\r\nnocolon",
+    ] {
+        out.push(case_of(kind, &[Ev::Data(trailers_frame(blk))]));
+        out.push(case_of(kind, &[Ev::Data([msg.clone(), trailers_frame(blk)].concat())]));
+        if kind == "cl" {
+            out.push(case_of("st s", &[Ev::Data([msg.clone(), trailers_frame(blk)].concat())]));
+            out.push(case_of("st u", &[Ev::Data([msg.clone(), trailers_frame(blk)].concat())]));
+        }
+    }
+
+    // ---- sizes around 16 KiB / 32 KiB / 64 KiB and beyond (DESIGN §9.9 A1) -----------------------
+    for (i, &sz) in BIG_SIZES.iter().enumerate() {
+        let fs = vec![(rng.below(2) as u8, big_payload(rng, sz))];
+        let mlen = 5 + sz;
+        let mut bytes = frames_bytes(&fs);
+        bytes.extend_from_slice(&tf0);
+        // message and trailers frame in one chunk; the message alone first; a first chunk of exactly `sz`
+        let mut cks: Vec<Vec<Vec<u8>>> = vec![vec![bytes.clone()]];
+        if i % 2 == 0 || thorough {
+            cks.push(vec![bytes[..sz].to_vec(), bytes[sz..].to_vec()]);
+        }
+        if i % 2 == 1 || thorough {
+            cks.push(vec![bytes[..mlen].to_vec(), bytes[mlen..].to_vec()]);
+        }
+        if thorough {
+            cks.extend(chunkings(&bytes, &[5, 16384, 32768, 65536, mlen + 3], rng, 2));
+        }
+        for ck in cks {
+            out.push(case_of(kind, &with_pendings(&ck, rng, 3)));
+        }
+        if kind == "cl" {
+            // request wrapping at the same sizes
+            out.push(case_of("creq", &[Ev::Data(frames_bytes(&fs))]));
+        }
+    }
+    // several frames, more than 64 KiB together, in one chunk with the trailers frame
+    {
+        let fs = vec![(0u8, big_payload(rng, 30000)), (1u8, big_payload(rng, 30001)), (0u8, big_payload(rng, 10000)), (0u8, vec![])];
+        let tr = gen_trailers_valid(rng);
+        let mut bytes = frames_bytes(&fs);
+        bytes.extend_from_slice(&trailers_frame(&block_of(&tr, b":")));
+        out.push(case_of(kind, &[Ev::Data(bytes.clone())]));
+        for ck in chunkings(&bytes, &prefix_marks(&fs), rng, 3).into_iter().take(if thorough { 99 } else { 2 }) {
+            out.push(case_of(kind, &with_pendings(&ck, rng, 3)));
+        }
+        if kind == "cl" {
+            out.push(case_of("creq", &[Ev::Data(frames_bytes(&fs))]));
+        }
+    }
+    // trailers frames of > 255 B, with one value of 70 000 B, of > 65 535 B
+    for which in 0..3u64 {
+        for sep in [&b":"[..], b": "] {
+            let tr = big_trailers(rng, which);
+            let fs = gen_frames(rng, 2, true);
+            let mut bytes = frames_bytes(&fs);
+            let mlen = bytes.len();
+            bytes.extend_from_slice(&trailers_frame(&block_of(&tr, sep)));
+            let mut cks: Vec<Vec<Vec<u8>>> = vec![vec![bytes.clone()]];
+            let mid = mlen + 5 + (bytes.len() - mlen - 5) / 2;
+            cks.push(vec![bytes[..mid].to_vec(), bytes[mid..].to_vec()]);
+            if thorough {
+                cks.extend(chunkings(&bytes, &[mlen + 1, mlen + 5, mlen + 5 + 255, mlen + 5 + 65535, mlen + 5 + 65536], rng, 2));
+            }
+            for ck in cks {
+                out.push(case_of(kind, &with_pendings(&ck, rng, 3)));
+            }
+            if kind == "cl" && sep == b":" {
+                let fs0: Vec<(u8, Vec<u8>)> = fs.iter().map(|(_, p)| (0u8, p.clone())).collect();
+                let mut b0 = frames_bytes(&fs0);
+                b0.extend_from_slice(&trailers_frame(&block_of(&tr, sep)));
+                out.push(case_of("st s", &[Ev::Data(b0)]));
+            }
+        }
+    }
 
     // ---- structured -------------------------------------------------------------------------
     let n = if thorough { 8000 } else { 700 };
@@ -367,6 +601,54 @@ pub fn generate(tier: &str, rng: &mut Rng) -> Vec<String> {
         out.push(case_of(kind, &[Ev::Data(trailers_frame(&[b"a", &[b][..], b"z:v\r\n"].concat()))]));
         out.push(case_of(kind, &[Ev::Data(trailers_frame(&[b"k:v", &[b][..], b"w\r\n"].concat()))]));
         out.push(case_of(kind, &[Ev::Data(trailers_frame(&[b"k:", &[b][..], b"w\r\n"].concat()))]));
+        out.push(case_of(kind, &[Ev::Data(trailers_frame(&[b"k: v", &[b][..], b"w\r\n"].concat()))]));
+        out.push(case_of(kind, &[Ev::Data(trailers_frame(&[b"k:v\r\nj:w", &[b][..]].concat()))])); // last line not terminated
+    }
+
+    // ---- the caller's view: client::Grpc over the layer (status from the in-body trailers) ------
+    if kind == "cl" {
+        let n = if thorough { 4000 } else { 400 };
+        for _ in 0..n {
+            let nf = rng.below(4);
+            let fs: Vec<(u8, Vec<u8>)> = (0..nf).map(|_| (0u8, { let l = *rng.pick(&[0usize, 1, 2, 5, 9, 300]); rng.bytes(l) })).collect();
+            let tr = gen_status_trailers(rng);
+            if header_map(&tr).is_none() {
+                continue;
+            }
+            let sep: &[u8] = if rng.chance(1, 4) { b": " } else { b":" };
+            let mut bytes = frames_bytes(&fs);
+            let mlen = bytes.len();
+            let mut tr_wire = tr.clone();
+            if rng.chance(1, 8) {
+                for p in tr_wire.iter_mut() {
+                    if rng.chance(1, 2) {
+                        p.0 = p.0.to_ascii_uppercase();
+                    }
+                }
+            }
+            if rng.chance(14, 15) {
+                bytes.extend_from_slice(&trailers_frame(&block_of(&tr_wire, sep)));
+            }
+            match rng.below(12) {
+                0 => {
+                    let c = rng.below(bytes.len() as u64 + 1) as usize;
+                    bytes.truncate(c); // cut off anywhere
+                }
+                1 => bytes.extend_from_slice(&frame(0, &[1])), // message after the trailers
+                _ => {}
+            }
+            let mut marks = prefix_marks(&fs);
+            for d in 0..=6 {
+                marks.push(mlen + d);
+            }
+            let cks = chunkings(&bytes, &marks, rng, 2);
+            let ck = cks[rng.below(cks.len() as u64) as usize].clone();
+            let mut evs = with_pendings(&ck, rng, 4);
+            if rng.chance(1, 30) {
+                evs.push(Ev::Err);
+            }
+            out.push(case_of(if rng.chance(1, 2) { "st u" } else { "st s" }, &evs));
+        }
     }
 
     // ---- request wrapping -------------------------------------------------------------------
